@@ -6,8 +6,8 @@
   expansion has the value of the table, `Σ_k c_k • φ(term_k)`.  With `φ(row) = ⊗_node opmat(node,key)`
   — which does not depend on the order in which the nodes are listed — two trees over the same
   degrees of freedom therefore denote the same operator as the chain (C01).
-  The multilinear contraction semantics of a tree (analogue of `automaton_eq_expand`) is validated
-  by the dense oracle, not proved here (partial).
+  The contraction semantics of a tree (analogue of `automaton_eq_expand`) is proved in
+  Props/C02Auto.lean (`autoTree_eq_expand`, `accepted_tree_contracts`).
 -/
 import RenoVerif.Model.SymTree
 import RenoVerif.Lemmas.FormalSum
